@@ -1590,9 +1590,9 @@ def l_units( ctx ):
                 n_lim += 1
                 m = pmatch( e, '_s * 2' ) or pmatch( e, '2 * _s' ) or pmatch( e, '_s << 1' ) or pmatch( e, '_s + _s' )
                 if m is not None and 'size' in txt( m['_s'] ):
-                    res.ok( src, r, '%s ( limit of a sub-machine ): %s - the size field counts words, the limit is in octets' % ( f.name, norm_text( txt( e ))[:60] ))
+                    res.ok( src, r, '%s ( limit of a sub-machine ): %s - the size field counts words, the limit is in octets' % ( f.name, norm_text( ast.unparse( e ))[:60] ))
                 else:
-                    res.bad( src, r, 'limit closure %s returns %s' % ( f.name, norm_text( txt( e ))[:60] ),
+                    res.bad( src, r, 'limit closure %s returns %s' % ( f.name, norm_text( ast.unparse( e ))[:60] ),
                              'the size field counts 16-bit words ( CIP: Request_Path_Size / Application Reply Size ): the sub-machine has to be limited to twice as many octets, else a conformant message is parsed with half of its data and the rest is left to the enclosing grammar', func=src.qualname_of( f ))
         # ---- producer side
         for qn, defs in sorted( src.defs.items()):
@@ -1622,7 +1622,7 @@ def l_units( ctx ):
                         if isinstance( par, ast.BinOp ) and par.left is c and (( isinstance( par.op, ast.FloorDiv ) and try_fold( par.right ) == 2 ) or ( isinstance( par.op, ast.RShift ) and try_fold( par.right ) == 1 )):
                             res.ok( src, c, '%s: len( %s ) // 2 - the payload kept to whole words is counted in words' % ( qn, X ))
                         else:
-                            res.bad( src, c, '%s: len( %s ) used as %s' % ( qn, X, norm_text( txt( par ))[:60] ),
+                            res.bad( src, c, '%s: len( %s ) used as %s' % ( qn, X, norm_text( ast.unparse( par ))[:60] ),
                                      'the payload is kept to whole 16-bit words because its size field counts words ( CIP ): announcing its length in octets tells every other implementation that twice the data follows', func=qn )
     if n_lim < 3 or n_len < 3:
         raise AnalysisError( 'L-UNITS: %d limit closures over a size field, %d word-counted payload lengths found' % ( n_lim, n_len ))
